@@ -27,6 +27,8 @@ pub struct Opts {
     pub env: Vec<(OsString, OsString)>,
     /// RLIMIT_STACK soft+hard in bytes (None = inherit; Some(u64::MAX) = unlimited)
     pub stack: Option<u64>,
+    /// leave the hard RLIMIT_STACK alone: `stack` sets only the soft limit (what the kernel uses)
+    pub stack_soft_only: bool,
     /// RLIMIT_NOFILE soft+hard (None = inherit)
     pub nofile: Option<u64>,
     pub uid: Option<u32>,
@@ -49,9 +51,16 @@ pub fn run(program: &Path, args: &[&OsStr], cwd: &Path, o: &Opts) -> BinOut {
         c.uid(u).gid(u);
     }
     if let Some(s) = o.stack {
+        let soft_only = o.stack_soft_only;
         unsafe {
             c.pre_exec(move || {
-                let lim = libc::rlimit { rlim_cur: if s == u64::MAX { libc::RLIM_INFINITY } else { s }, rlim_max: if s == u64::MAX { libc::RLIM_INFINITY } else { s } };
+                let mut lim = libc::rlimit { rlim_cur: if s == u64::MAX { libc::RLIM_INFINITY } else { s }, rlim_max: if s == u64::MAX { libc::RLIM_INFINITY } else { s } };
+                if soft_only {
+                    let mut old = libc::rlimit { rlim_cur: 0, rlim_max: 0 };
+                    if libc::getrlimit(libc::RLIMIT_STACK, &mut old) == 0 {
+                        lim.rlim_max = old.rlim_max;
+                    }
+                }
                 if libc::setrlimit(libc::RLIMIT_STACK, &lim) != 0 {
                     return Err(std::io::Error::last_os_error());
                 }
